@@ -135,6 +135,11 @@ pub fn gen_c08(seed: u64, thorough: bool) {
         engine.condition.set_volume(*rng.pick(&[0.0, -10.0]));
         let fp_eff = engine.condition.get_fperiod();
         let s_eff = engine.condition.get_speed();
+        // calls that do not concern the speed (each sets another setting and puts it back, or toggles the alignment flag
+        // twice) between setting the speed and synthesizing: the utterance must still have the length for `s_eff`
+        let snap = crate::engine::cond_snapshot(&engine);
+        let hist = crate::engine::neutral_calls(&mut rng, &mut engine);
+        crate::engine::shist_report(&snap, &crate::engine::cond_snapshot(&engine), &[], &hist);
         let e2 = &engine;
         let r = catch(std::panic::AssertUnwindSafe(move || e2.synthesize(labels).map(|w| w.len()).map_err(|e| format!("{e:?}"))));
         let mut line = String::from("durE");
